@@ -70,7 +70,7 @@ CLAIMS = {
             'decoded sequence, ciphertext is everything after the sequence bytes (Kani, complete).',
             'Server (Verus, U19): NetcodeServer::new starts global_sequence at 2^63 and the invariant global_sequence >= 2^63 is preserved; every handshake reply (challenge, denied) is sealed with a nonce of the upper half, '
             'the first packet of a session with the session\'s own counter (lower half, history assumption < 2^63): the two classes never share a nonce under the server-to-client key they both use. '
-            'Assumed: the AEAD itself. Not decided: generate_payload_packet / update_client (per-connection counter increments, by reading).'),
+            'Assumed: the AEAD itself. generate_payload_packet / update_client / disconnect seal with the session counter and advance it (verbatim, U19).'),
     'C19': ('Size relation: decode yields ConnectionRequest only from >= 1078 bytes; Challenge encodes to <= 333 and ConnectionDenied to <= 25 bytes, both < 1078 (Kani, complete). '
             'Control flow (Verus, U19, verbatim): process_packet_internal / handle_connection_request answer a datagram with at most one datagram, addressed to the sender, of at most 333 bytes, and only for a request whose token is authentic, '
             'unexpired and not presented from another address before; every error path returns no datagram.',
@@ -86,7 +86,8 @@ CLAIMS.update({
     'C10': ('Server invariant table_unique (connected clients have pairwise distinct ids and pairwise distinct addresses) is preserved by process_packet_internal and handle_connection_request (Verus, U19, verbatim); '
             'ClientConnected adds exactly one new session in a free slot with an id and address not connected before; ClientDisconnected removes exactly the named session; any other outcome leaves the set of sessions and their keys as they were; '
             'a payload is attributed to the session of the sending address; a request never touches the table of connected clients.',
-            'Assumed: find_client_* / free-slot search (one-line iterator chains) by their evident contracts; AEAD idealisation. Not decided: update_client / disconnect (time-outs, explicit disconnects), set_max_clients, the bound max_clients (the table length is fixed at construction; lowering the limit is outside the property).'),
+            'update_client and disconnect remove exactly the named session and report exactly that id and address; generate_payload_packet addresses the session registered under the id. '
+            'Assumed: find_client_* / free-slot search (one-line iterator chains) by their evident contracts; AEAD idealisation. Not decided: set_max_clients, update (pending expiry), the bound max_clients (the table length is fixed at construction; lowering the limit is outside the property).'),
     'C14': ('Per channel call: payload bytes put into packets (plus the pending small-message batch) equal the decrease of available_bytes, which never grows; '
             'a reliable message or slice that does not fit stays queued untouched, an unreliable message that does not fit is dropped whole (Verus: SendChannelUnreliable::get_packets_to_send '
             'verbatim with loop invariants; body of the reliable send loop outlined by rule D6).',
@@ -112,10 +113,11 @@ CLAIMS.update({
             'present, with the stored first reason or Transport; get_event is FIFO; no other operation touches the id set or the queue; disconnect_all loop body keeps first reasons.',
             'RenetClient::{process_packet, send_message, receive_message} leave a disconnected client exactly as it was and only ever move the status to Disconnected (U15). RenetClient::get_packets_to_send returns nothing and changes nothing once disconnected, and never changes the status itself (U16); '
             'the per-id alternation Connected, Disconnected, ... follows from the add/remove contracts by induction over calls (argument, not a checked obligation).'),
-    'C18': ('Client-side step contracts only (Kani, complete over any token value, any state, any timers below 2^40 s): update disconnects a connected client exactly when no packet arrived for more than '
+    'C18': ('Step contracts (client: Kani, complete over any token value, any state, any timers below 2^40 s; server: Verus, U19): client update disconnects a connected client exactly when no packet arrived for more than '
             'timeout_seconds, moves a timed-out connecting client to the next listed address or gives up, produces at most one packet per 250 ms; only a datagram that decoded refreshes '
             'last_packet_received_time (forged/replayed packets do not postpone a timeout).',
-            'Not decided: everything phrased as eventually / within bounded time, the server side (update_client, pending expiry, set_max_clients) and the two-endpoint composition: '
+            'Server: update_client drops a session only when it was marked disconnected or nothing arrived for more than its timeout_seconds, and sends its keep-alive to that session\'s address. '
+            'Not decided: everything phrased as eventually / within bounded time, NetcodeServer::update (pending expiry), set_max_clients and the two-endpoint composition: '
             'contracts are the wrong tool for that half.'),
 })
 
